@@ -142,6 +142,9 @@ theorem finalize_shape (ft : FloatText) (e e' : EW) (tr : String → Option Stri
   · split at h
     · cases h
     · rename_i xml0 hs _ xml ht
+      change ite _ _ _ = _ at h
+      split at h
+      · cases h
       obtain ⟨p1, e1, h⟩ := Outcome.bind_eq_ok h
       obtain ⟨p1a, e1a, h⟩ := Outcome.bind_eq_ok h
       obtain ⟨p1', f1, i1, a1⟩ := pw_writeAll e.pw (utf8 xml) hpw
@@ -1143,6 +1146,7 @@ theorem final_instance (ft : FloatText) :
     exact ⟨_, rfl⟩
   obtain ⟨x, hx⟩ := hser
   obtain ⟨e', hfin⟩ := BlobRT.finalize_ok ft e (fun _ => some "x") L.inv x "x" hx rfl
+    (by decide +kernel)
   have h48 : 48 ≤ e.pw.abs.cur := by
     show 48 ≤ pw2.abs.cur; rw [L.cursor, hcur]; omega
   have hlen : pw2.abs.data.length = 2040 := by
@@ -1394,6 +1398,7 @@ theorem finalized_header_statement_false : ¬ finalized_header_statement := by
     exact ⟨_, rfl⟩
   obtain ⟨x, hx⟩ := hser
   obtain ⟨e', hfin⟩ := BlobRT.finalize_ok ⟨[], []⟩ e (fun _ => some "") hinv x "" hx rfl
+    (by decide +kernel)
   obtain ⟨xml0, xml, _, ht, inv', a, dv⟩ := finalize_shape _ e e' _ hinv hfin
   injection ht with ht
   subst ht
@@ -1450,6 +1455,7 @@ theorem xml_offset_statement_false : ¬ xml_offset_statement := by
     exact ⟨_, rfl⟩
   obtain ⟨x, hx⟩ := hser
   obtain ⟨e', hfin⟩ := BlobRT.finalize_ok ⟨[], []⟩ e (fun _ => some "") hinv x "" hx rfl
+    (by decide +kernel)
   have h := hst _ e e' _ hinv (by show 48 ≤ P.abs.cur; omega) hfin
   obtain ⟨xml0, xml, _, ht, inv', a, dv⟩ := finalize_shape _ e e' _ hinv hfin
   injection ht with ht
